@@ -7,7 +7,7 @@ TAGS = ['awaited', 'stuck', 'alg', 'setflag']
 RULE = ('(a) scope trees: nested (until-)scopes (depth <= 3, <= 3 children each, volatile or delayed), bodies and children that '
         'sleep/raise (regular and privileged types)/return, cancels from inside and from a separate activity after t time units '
         'and k postponements, deadlines and flags on a coarse time grid, everything wrapped in handlers that log what they catch; '
-        '(b) random valid whole-API programs (no usage errors); (c) condition expression trees (depth <= 3) over flags / tracked values / task completion / time atoms awaited by 1-4 waiters while other activities change the values (also reverting within a step), flat connectives whose operands flicker over several time steps before all of them hold, conditions derived step by step with the operators `&` / `|` and kept in variables, plus `bool()` probes of derived conditions; non-trivial = a connective or inverted condition was awaited or probed')
+        '(b) random valid whole-API programs (no usage errors); (c) condition expression trees (depth <= 3) over flags / tracked values / task completion / time atoms awaited by 1-4 waiters while other activities change the values (also reverting within a step), flat connectives whose operands flicker over several time steps before all of them hold, conditions derived step by step with the operators `&` / `|` and kept in variables, plus `bool()` probes of derived conditions, time conditions around date 0 on a clock that starts below zero; non-trivial = a connective or inverted condition was awaited or probed')
 
 
 import gen
@@ -73,6 +73,29 @@ def revert_family(rng):
         roots.append(['prog'] + changes)
     rng.shuffle(roots)
     return ['scenario', ['debug', 1], ['start', 0], ['flags', 2], ['locks', 0], ['tracked', 3, 5], ['roots'] + roots]
+
+
+def negative_clock(rng):
+    """time conditions around date 0 on a clock that starts below zero (`run(..., start=-5)`): `time >= 0`, `time == 0`, alone
+    and in flat connectives with flags that are set before / at / after that date"""
+    start = rng.choice([-5, -3, F(-5, 2), -1])
+    roots = []
+    for i in range(rng.randint(1, 4)):
+        d = rng.choice([0, 0, 0, 1, -1, F(-1, 2)])
+        atom = [rng.choice(['after', 'after', 'moment']), d]
+        k = rng.random()
+        if k < 0.4:
+            c = atom
+        elif k < 0.8:
+            c = [rng.choice(['all', 'any']), atom, ['flag', rng.randrange(2)]]
+        else:
+            c = [rng.choice(['all', 'any']), ['flag', rng.randrange(2)], atom]
+        roots.append(['prog'] + [['sleep', rng.choice([0, 0, 1])]] + [['logcond', c], ['await', c], ['log', 100 + i]])
+    for f in range(2):
+        if rng.random() < 0.8:
+            roots.append(['prog', ['sleep', rng.choice([0, 1, 2, 3, 5, 7])], ['set', f, True]])
+    rng.shuffle(roots)
+    return ['scenario', ['debug', 1], ['start', start], ['flags', 2], ['locks', 0], ['roots'] + roots]
 
 
 def flicker_family(rng):
@@ -160,7 +183,7 @@ def nontrivial(impl):
     return sum(1 for e in impl['events'] if ':awaited:' in e or ':alg:' in e) >= 2
 
 
-SOURCES = [scopesuite.scope_tree, scopesuite.valid_scenario, cond_family, revert_family, flicker_family, operator_family]
+SOURCES = [scopesuite.scope_tree, scopesuite.valid_scenario, cond_family, revert_family, flicker_family, operator_family, negative_clock]
 
 
 def run(tier, seed, drv):
